@@ -215,6 +215,12 @@ def classify_impl(raw, bad_grid, solve_and_simulate, r, meta, mj_for_init, via_r
             from dsl import build_model
 
             base = build_model(mj_for_init)
+            # the user's workflow: the functions of the valid base specification were created in this process before the
+            # specification was edited (anything the library remembers about the base must not leak into the edited one)
+            try:
+                get_lcm_function(base, targets="solve")
+            except Exception:  # noqa: BLE001, S110 - the base is judged by its own cases
+                pass
             changed = {}
             if raw["n_periods"] != mj_for_init["n_periods"]:
                 changed["n_periods"] = raw["n_periods"]
